@@ -393,9 +393,9 @@ def single_ret(f: FuncInfo) -> Optional[str]:
 
 
 def run(ctx: RuleContext, p: Program) -> None:
-    rule_fsm_cost(ctx, p, 'FSM-COST')
-    rule_fsm_payee(ctx, p, 'FSM-PAYEE')
-    rule_slot_agree(ctx, p, 'SLOT-AGREE')
+    ctx.try_rule(rule_fsm_cost, p, 'FSM-COST')
+    ctx.try_rule(rule_fsm_payee, p, 'FSM-PAYEE')
+    ctx.try_rule(rule_slot_agree, p, 'SLOT-AGREE')
     ctx.not_decided += ['survival of values through print and re-parse', 'value domains of each token type (C12)',
                         'other dependent groups (none documented)']
     ctx.assumptions += ['primitive models of FSM-COST: unordered_node_property get/set means present/absent component of that type; '
